@@ -12,11 +12,19 @@ impl Repr {
     /// Find the simplest rational number in the open interval `(lower, upper)`.
     /// See [RBig::simplest_in()] and <https://stackoverflow.com/q/66980340/5960776>.
     pub fn simplest_in(mut lower: Self, mut upper: Self) -> Self {
-        let sign = if lower.numerator.sign() != upper.numerator.sign() {
-            // if lower < 0 < upper, then 0 is the simplest
-            return Self::zero();
-        } else {
-            lower.numerator.sign()
+        let sign = match (lower.numerator.is_zero(), upper.numerator.is_zero()) {
+            (true, true) => return Self::zero(),
+            // zero is an end point of the open interval, the result has the sign of the other end
+            (true, false) => upper.numerator.sign(),
+            (false, true) => lower.numerator.sign(),
+            (false, false) => {
+                if lower.numerator.sign() != upper.numerator.sign() {
+                    // if lower < 0 < upper, then 0 is the simplest
+                    return Self::zero();
+                } else {
+                    lower.numerator.sign()
+                }
+            }
         };
         lower = lower.abs();
         upper = upper.abs();
